@@ -772,14 +772,14 @@ func (z *Decimal) FMA(x, y, u *Decimal) *Decimal {
 		z.prec = umax32(umax32(x.prec, y.prec), u.prec)
 	}
 
-	if u.form == zero {
+	if u.form == zero && x.form == finite && y.form == finite {
+		// the product is not zero: x*y + ±0 == x*y
 		return z.Mul(x, y)
 	}
-	// 0 < |u| <= Inf
 
-	// avoid trashing z if u == z
+	// avoid trashing z if u == z (u may have no mantissa buffer at all)
 	z0 := z
-	if alias(z.mant, u.mant) {
+	if z == u || alias(z.mant, u.mant) {
 		z0 = new(Decimal)
 		z0.mode = z.mode
 		z0.prec = z.prec
@@ -818,6 +818,14 @@ func (z *Decimal) FMA(x, y, u *Decimal) *Decimal {
 
 	// ±0 * y + u
 	// x * ±0 + u
+	if u.form == zero {
+		// sum of two zeros: -0 only if both the product and u are -0
+		neg := z0.neg && u.neg
+		z.acc = Exact
+		z.form = zero
+		z.neg = neg
+		return z
+	}
 	return z.Set(u)
 }
 
